@@ -38,6 +38,8 @@ def bound(v):
   """slice bound with the same order type relative to the ids."""
   if v is None:
     return None
+  if v <= 0:
+    return b''            # the least bytes value, and the only falsy one (as 0 among the non-negative ints)
   if v < 10:
     return b'A'
   if v == 10:
@@ -135,7 +137,7 @@ def check(run):
   run.witness('oracle-accepts-real-code-on-test-inputs', 'translation', ok)
   v1, v2 = configs(run.tier)
   run.bounds = {'clients': 3, 'view operations': '<=2 (slice / preprocess_client / preprocess_batch), nested slices on 2 clients',
-                'slice bounds': 'symbolic Optional[int] (all order types incl. None, equal to an id, start > stop)', 'subset': 'symbolic membership bits',
+                'slice bounds': 'symbolic Optional[int] >= 0 (all order types incl. None, the empty bytes value (0), equal to an id, start > stop)', 'subset': 'symbolic membership bits',
                 'configurations': len(v1) + len(v2)}
   jobs, meta = [], []
   for c in v1:
